@@ -131,6 +131,52 @@ func main() {
 				return s == "as.loadQPRPaths" || s == "as.processFrac" || s == "as.updateSearchInfo"
 			}), "doSearch: load processed, process, persist Done")
 		}
+		// loadAsyncSearches: every persisted request is decoded into a value declared inside the per-file loop
+		// (json.Unmarshal decodes into existing slices and pointers in place: a shared target aliases the requests)
+		if fd := f.Func("", "loadAsyncSearches"); fd == nil {
+			e.Missing("loadDecodeTargets", "loadAsyncSearches not found")
+		} else {
+			var targets []string
+			ast.Inspect(fd.Body, func(n ast.Node) bool {
+				loop, ok := n.(*ast.RangeStmt)
+				if !ok {
+					return true
+				}
+				declared := map[string]bool{}
+				ast.Inspect(loop.Body, func(m ast.Node) bool {
+					switch x := m.(type) {
+					case *ast.DeclStmt:
+						if gd, ok := x.Decl.(*ast.GenDecl); ok && gd.Tok == token.VAR {
+							for _, sp := range gd.Specs {
+								if vs, ok := sp.(*ast.ValueSpec); ok {
+									for _, nm := range vs.Names {
+										declared[nm.Name] = true
+									}
+								}
+							}
+						}
+					case *ast.AssignStmt:
+						if x.Tok == token.DEFINE {
+							for _, l := range x.Lhs {
+								declared[f.Render(l)] = true
+							}
+						}
+					case *ast.CallExpr:
+						if f.Render(x.Fun) == "json.Unmarshal" && len(x.Args) == 2 {
+							t := strings.TrimPrefix(f.Render(x.Args[1]), "&")
+							where := "declared outside the loop"
+							if declared[t] {
+								where = "declared inside the loop"
+							}
+							targets = append(targets, t+": "+where)
+						}
+					}
+					return true
+				})
+				return false
+			})
+			e.Strs("loadDecodeTargets", targets, "loadAsyncSearches: target of each json.Unmarshal in the per-file loop")
+		}
 		if fd := f.Func("AsyncSearcher", "processFrac"); fd == nil {
 			e.Missing("processFracCalls", "processFrac not found")
 		} else {
